@@ -181,3 +181,14 @@ CHECKS.update({
                 parts=[rc("small", "model"), rc("small", "model", variant="rcasan", quick=30000, thorough=400000)],
                 assumptions=["moved-from OpResult state is unspecified (std::optional stays engaged, OpResult disengages; the property demands neither)"]),
 })
+
+CHECKS.update({
+    "C43": dict(title="CpuSet set algebra, CPU-list parsing and grouping are correct", level="exploration",
+                technique="rapidcheck model-based testing (std::set model, grammar-generated CPU lists, synthetic topologies with a validity predicate) + exhaustive enumeration of all short strings over a small alphabet; ASan+UBSan variant",
+                text="(a) op sequences over add/addRange/remove/removeRange/contains/count/clear with ids biased to 0, CPU_SETSIZE, INT32_MIN/MAX against a std::set clipped to [0,CPU_SETSIZE); (b) CPU lists generated from the kernel's grammar (ids up to 2^20, ranges, reversed ranges, trailing newline): parsed set equals the denoted in-range ids; (c) ALL 299593 strings of length <= 6 over {0,1,9,-,comma,space,newline,x}: no crash / sanitizer report, and exact set whenever a strict reference parser accepts the string; (d) synthetic topologies (L2 partitions sorted by first id, SMT-style sibling ids, L3 groups as unions of L2 groups or absent / partial, maxGroupSize 1..64): groups partition the L2 cpus, no L2 group split, no group with cpus of two known L3 groups, size <= max(maxGroupSize, largest L2), affinity mask == members.",
+                note=RC_NOTE + " The FreeBSD topology-spec XML parser is exercised by C11's fuzz target only.", design_ref="§4 C43",
+                parts=[rc("cpuset", "algebra"), rc("cpuset", "cpulist"), rc("cpuset", "strings"), rc("cpuset", "group"),
+                       rc("cpuset", "strings", variant="rcasan"), rc("cpuset", "cpulist", variant="rcasan", quick=30000, thorough=300000),
+                       rc("cpuset", "group", variant="rcasan", quick=30000, thorough=300000)],
+                assumptions=["topology inputs as the producers guarantee them: L2 groups disjoint, sorted by first cpu id, cpu ids >= 0", "exact-set oracle only for well-formed lists with ids <= 2^20 (the parser's documented clamp)"]),
+})
